@@ -103,6 +103,10 @@ type attrCodec struct {
 	unmarsh func(a xml.Attr) (int, error)
 	// twice decodes a and then b into one variable
 	twice func(a, b xml.Attr) error
+	// refuses: the marshaller is the type's validity gate (it is documented to
+	// fail for values without a wire name), so whatever it does write, for any
+	// value, has to be something the unmarshaller accepts
+	refuses bool
 }
 
 var attrCodecs = map[string]attrCodec{
@@ -161,13 +165,15 @@ var attrCodecs = map[string]attrCodec{
 	},
 	"crypto.Hash(attr)": {
 		values: func() []int {
-			out := []int{0, 1, 99}
+			// zero, below, inside (the named hashes are not contiguous) and beyond the range of the named ones
+			out := []int{0, 1, 8, 9, 10, 12, 14, 15, 16, 18, 20, 99}
 			for _, h := range validHashes {
 				out = append(out, int(h))
 			}
 			return out
 		},
-		canon: func(v int) bool { return hashValid(crypto.Hash(v)) },
+		canon:   func(v int) bool { return hashValid(crypto.Hash(v)) },
+		refuses: true,
 		marshal: func(v int) (xml.Attr, error) {
 			return crypto.Hash(v).MarshalXMLAttr(xml.Name{Local: "algo"})
 		},
@@ -234,6 +240,8 @@ func attrEnumEntry(name string) *entry {
 			if err != nil {
 				if canon {
 					violate(c, "codec:R:"+typ+":decode-error", "attribute %q written for %d is rejected: %v", a.Value, v, err)
+				} else if codec.refuses && a.Name.Local != "" {
+					violate(c, "codec:R:"+typ+":decode-error:unwritable", "MarshalXMLAttr(%d) reported success for a value without a wire name and wrote %q, which UnmarshalXMLAttr rejects: %v", v, a.Value, err)
 				}
 				return
 			}
